@@ -276,6 +276,22 @@ def check_verdicts(b, family, values, df, col, w, eps_list=(0, 0.25, 0.5), tz=Fa
                 if ok:
                     b.check('C02.verify_no_duplicates.verdict',
                             bool(got) == bool(SPEC['spec_no_duplicates'](col, v)), w2, 'verifier %r' % (got,))
+            # allowed values on numeric and date fields: the non-null values must be among them
+            if col.ttype in ('int', 'real', 'date') and family not in ('float64x',):
+                present = sorted(set(col.nonnull))
+                for av in ([F.norm(x) for x in present], [F.norm(x) for x in present[:-1]]):
+                    if not all(isinstance(x, (int, float)) or hasattr(x, 'year') for x in av):
+                        continue
+                    con = base.AllowedValuesConstraint(av)
+                    w2 = dict(w, kind='allowed_values', value=[repr(x) for x in av])
+                    b.case(('verdict', family, values, 'allowed-num', repr(av)))
+                    with quiet():
+                        ok, got = b.guarded('C02.verify_allowed_values.noraise',
+                                            lambda: ver.verify_allowed_values_constraint('c', con), w2)
+                    if ok:
+                        want = all(x in av for x in present)
+                        b.check('C02.verify_allowed_values.verdict', bool(got) == want, w2,
+                                'verifier %r, non-null values %r' % (got, present))
             # allowed values (string fields)
             if col.ttype == 'string':
                 present = sorted(set(x for x in col.nonnull if isinstance(x, str)))
@@ -795,9 +811,14 @@ def check_detection(b, family, values, df, col, w, tmpdir, rnd):
                 'verify %r detect %r' % (dict(v.fields['c']), dict(dres.fields['c'])))
         same = (list(df_in) == list(before) and len(df_in) == len(before)
                 and all(_cells_equal(df_in[cn].tolist(), before[cn].tolist()) for cn in before)
-                and all(str(df_in[cn].dtype) == str(before[cn].dtype) for cn in before))
+                and all(str(df_in[cn].dtype) == str(before[cn].dtype) for cn in before)
+                # the index is part of the frame: its labels and its name(s)
+                and list(df_in.index.names) == list(before.index.names) and df_in.index.equals(before.index)
+                and list(df_in.columns.names) == list(before.columns.names))
         b.check('C06.input-frame-unchanged', same, w1,
-                'dtype/content changed: %s -> %s' % (dict(before.dtypes.astype(str)), dict(df_in.dtypes.astype(str))))
+                'dtype/content/index changed: %s -> %s; index names %r -> %r'
+                % (dict(before.dtypes.astype(str)), dict(df_in.dtypes.astype(str)), list(before.index.names),
+                   list(df_in.index.names)))
         if dres.failures == 0:
             b.check('C06.no-detection-without-failure', dres.detection is None
                     or dres.detection.n_failing_records == 0, w1)
